@@ -27,8 +27,7 @@ PROFILE = {"soil_switch_p": 0.8, "dz_p": 0.5, "calendar_crop_p": 0.4, "n_seasons
            "irr_methods": [0, 1, 2, 3, 4, 5, 5], "events_per_year": 3.0, "event_kinds": ["storm", "wet_spell", "drought", "dry_then_wet", "dry_then_wet", "heat_wave", "cold_snap", "et0_spike"], "co2_p": 0.4, "off_season_p": 0.5,
            "crops": None}
 
-LONG_CANOPY_WINDOW_CROPS = ["AlfalfaGDD", "Default", "HydWheatGDD", "Maize", "MaizeGDD", "Quinoa", "SorghumGDD", "SugarCane", "Sunflower",
-                            "SunflowerGDD", "Cassava", "AlfalfaGDD", "SunflowerGDD", "Sunflower", "HydWheatGDD"]
+LONG_CANOPY_WINDOW_CROPS = ["AlfalfaGDD", "AlfalfaGDD", "Sunflower", "Sunflower", "SunflowerGDD", "Maize", "MaizeGDD", "Default", "Quinoa", "SugarCane"]
 
 PROFILE_ARRAYS = ["Comp", "dz", "Layer", "dzsum", "th_fc", "th_s", "th_wp", "Ksat", "Penetrability", "th_dry", "tau", "zBot",
                   "z_top", "zMid", "th_fc_Adj", "aCR", "bCR"]
@@ -141,12 +140,12 @@ def gen_case(rng, tier, idx):
                 t += rng.choice([2, 3, 4])
         spec["irr"] = {"method": 3, "kwargs": {"MaxIrr": 60}, "schedule": sched}
         case["controller"] = None
-        if rng.random() < 0.8:
+        if rng.random() < 0.9:
             # Notebook-2 pattern driven by state: a grower who starts a constant daily application (IrrMngt.depth) a few days
             # after the canopy has visibly shrunk below its initial size, i.e. re-watering lands wherever the stress really bit
             spec["irr"] = {"method": 5, "kwargs": {"depth": 0, "MaxIrr": 60}, "schedule": None}
-            case["reactive_controller"] = {"when": "canopy_below_initial_size", "delay": rng.choice([0, 1, 3, 6, 10]),
-                                           "depth": rng.choice([8, 12, 20, 30]), "days": rng.choice([20, 40, 200])}
+            case["reactive_controller"] = {"when": "canopy_below_initial_size", "delay": rng.choice([0, 0, 1, 3, 6]),
+                                           "depth": rng.choice([12, 20, 30]), "days": rng.choice([40, 200, 200])}
         return case
     if idx % 4 == 3:
         # flooded basin whose management changes at harvest, off-season simulated: the day the other management takes over
